@@ -2,6 +2,7 @@ package validator
 
 import (
 	"github.com/jsightapi/jsight-schema-go-library/errors"
+	"github.com/jsightapi/jsight-schema-go-library/internal/json"
 	"github.com/jsightapi/jsight-schema-go-library/internal/lexeme"
 	"github.com/jsightapi/jsight-schema-go-library/notations/jschema/internal/schema"
 )
@@ -11,6 +12,10 @@ import (
 type literalValidator struct {
 	node_   schema.Node
 	parent_ validator
+
+	// nullOnly is set for the validator which stands for `nullable: true` next
+	// to a list of types: the types decide every value except null.
+	nullOnly bool
 }
 
 func newLiteralValidator(node schema.Node, parent validator) *literalValidator {
@@ -24,6 +29,12 @@ func newLiteralValidator(node schema.Node, parent validator) *literalValidator {
 	default:
 		panic(errors.ErrValidator)
 	}
+}
+
+func newNullValidator(node schema.Node, parent validator) *literalValidator {
+	v := newLiteralValidator(node, parent)
+	v.nullOnly = true
+	return v
 }
 
 func (v literalValidator) node() schema.Node {
@@ -46,6 +57,9 @@ func (v *literalValidator) feed(jsonLexeme lexeme.LexEvent) ([]validator, bool) 
 	case lexeme.LiteralBegin:
 		return nil, false
 	case lexeme.LiteralEnd:
+		if v.nullOnly && jsonLexeme.Value().String() != "null" {
+			panic(errors.Format(errors.ErrInvalidValueType, json.Guess(jsonLexeme.Value()).LiteralJsonType().String(), json.TypeNull.String()))
+		}
 		ValidateLiteralValue(v.node_, jsonLexeme.Value()) // can panic
 		return nil, true
 	}
